@@ -2,7 +2,7 @@
 import random
 
 ERROR_FORMS = ["default", "default", "default", "class", "class", "instance", "instance", "factory", "factory", "falsy_instance"]
-EXC_FAULTS = ["FaultError", "FaultBase", "KeyboardInterrupt", "SystemExit", "GeneratorExit", "RecursionError", "MemoryError", "AssertionError", "KeyError", "AttributeError"]
+EXC_FAULTS = ["FaultError", "FaultBase", "KeyboardInterrupt", "SystemExit", "GeneratorExit", "RecursionError", "MemoryError", "AssertionError", "KeyError", "AttributeError", "TypeError"]
 
 
 def rng_for(seed, prop, i):
